@@ -57,7 +57,7 @@ def run_schedule(text, names, sig, sched, pastify=False, kind='ct', sd_extra=Non
 
 class C05(Prop):
     id = 'C05'
-    rule_added = '35-50% of the cases add interleaved-source schedules (an update carries batches of some variables only, the others omitted or empty; idle polls). 12% under an interface-aware semantics (half: an overridden equality predicate on values mirrored around its constant). 10% of the aligned cases feed the inputs as fields of one object-typed variable.'
+    rule_added = 'Enumerated in every run: every binary operation (+ - * / pow log, and or implies iff xor, since, since[a,b]) with its operands on two variables that have their own sampling instants, first stamps and batch boundaries (per-variable and interleaved schedules). 35-50% of the cases add interleaved-source schedules (an update carries batches of some variables only, the others omitted or empty; idle polls). 12% under an interface-aware semantics (half: an overridden equality predicate on values mirrored around its constant). 10% of the aligned cases feed the inputs as fields of one object-typed variable.'
     rule = ('random past dense-time formulas (and, pastified, bounded-future ones) x signals of 2..8 samples per '
             'variable x schedules {all-at-once, one sample at a time, 3 random aligned chunkings, 1 random '
             'per-variable chunking} (thorough: all 2^(n-1) aligned chunkings for n<=6): the concatenated update() '
@@ -276,7 +276,47 @@ class C05(Prop):
         return v
 
 
+    BINOPS = ('add', 'sub', 'mul', 'div', 'pow', 'log', 'and', 'or', 'implies', 'iff', 'xor', 'since', 'since-timed')
+
+    def gen_binop(self, rng, o):
+        """One binary operation whose two operands are carried by different variables, each variable with its own
+        sampling instants, first stamp and batch boundaries (per-variable and interleaved schedules): the class in
+        which the two operand buffers of a dense-time online operation advance independently."""
+        N, V, C = lang.N, lang.V, lang.C
+        x, y = V('x'), V('y')
+        if o in lang.BIN_ARITH:
+            left = rng.choice([x, N('add', N('abs', x), C(1.0))]) if o in ('add', 'sub', 'mul') else N('add', N('abs', x), C(1.0))
+            right = {'add': y, 'sub': y, 'mul': y, 'div': N('add', N('abs', y), C(1.0)), 'pow': N('div', y, C(4.0)),
+                     'log': N('add', N('abs', y), C(2.0))}[o]
+            f = N(rng.choice(['geq', 'leq', 'gt']), N(o, left, right), C(rng.choice([1.0, 2.0, 0.5])))
+        else:
+            p = N(rng.choice(['geq', 'leq']), x, C(rng.choice([0.0, 1.0, -1.0])))
+            q = N(rng.choice(['geq', 'leq']), y, C(rng.choice([0.0, 1.0, -1.0])))
+            if o == 'since-timed':
+                a = rng.choice([0, 1, 2])
+                f = N('since', p, q, ivl=(Fr(a, 4), Fr(a + rng.choice([0, 2, 4]), 4)))
+            else:
+                f = N(o, p, q)
+        r = rng.random()
+        if r < 0.3:
+            f = N('once', f, ivl=(Fr(0), Fr(rng.choice([1, 2, 4]), 4)))
+        elif r < 0.45:
+            f = N('historically', f)
+        names = ['x', 'y']
+        case = self.gen_independent(rng, f, names, False)
+        sig = sig_from_json(case['signals'])
+        case['interleaved'] = [self.gen_interleaved(rng, sig, names) for _ in range(3)]
+        case['binop'] = o
+        return case
+
     def extra(self, ctx):
+        per = 4 if ctx.tier == 'quick' else max(2, 400 // ctx.nshards)
+        for o in self.BINOPS:
+            for _ in range(per):
+                if ctx.out_of_time():
+                    break
+                self.check(ctx, self.gen_binop(ctx.rng, o))
+                ctx.count('class:binary-operation-over-independent-sources')
         ctx.stats['distinct_schedules_observed'] = len(self.__dict__.get('_scheds', ()))
 
 
